@@ -233,13 +233,26 @@ def run(rep, facts, tier):
     recv_ok = [(sbb, tg) for sbb, tg, cond, lab in switch_edges(wf, fx, og) if lab == 'Ok' and term_has(cond, lambda x: x[0] == 'call' and x[1].endswith('try_recv'))]
     notrel = [(sbb, tg) for sbb, tg, cond, lab in switch_edges(wf, fx, og)
               if cond[0] == 'discr' and term_has(cond, lambda x: x[0] == 'field' and x[1] == 'reliability') and lab in ('None', 'BestEffort')]
+    n_other = 0
     for bb, si, st in wf.statements():
-        if st['s'] == 'assign' and st['rv']['r'] == 'agg' and st['rv'].get('variant') == 'Ok' and st['rv']['ops'] and \
-                st['rv']['ops'][0].get('o') == 'const' and st['rv']['ops'][0]['k'].get('v') == 1:
+        if not (st['s'] == 'assign' and st['rv']['r'] == 'agg' and st['rv'].get('variant') == 'Ok' and st['rv']['ops'] and 'Result' in str(st['rv'].get('adt'))):
+            continue
+        op = st['rv']['ops'][0]
+        v = og.of_operand(op, bb, si)
+        if v[0] == 'const' and str(v[2]) in ('false', '0', 'False'):
+            continue            # Ok(false): time-out, always allowed
+        if v[0] == 'const':
             n_true += 1
             ok = P.every_path_passes(None, (bb, si), via_edges=recv_ok + notrel, from_entry=True)
             rep.check(ok, 'R20.4', 'wait_for_acknowledgments/ok-true#%d' % n_true, 'Ok(true) only after try_recv() == Ok(token), or for a non-reliable writer',
                       'the synchronous wait can report success without having received the completion token', wf.where(bb, si))
+        else:
+            # a computed bool: it may be true, so the same condition applies to it (e.g. `Ok(!events.is_empty())`: a dropped sender wakes the poll too)
+            n_other += 1
+            ok = P.every_path_passes(None, (bb, si), via_edges=recv_ok + notrel, from_entry=True)
+            rep.check(ok, 'R20.4', 'wait_for_acknowledgments/ok-computed#%d' % n_other, 'a computed Ok(bool) only after try_recv() == Ok(token)',
+                      'the synchronous wait returns Ok(%s): a value that can be true although the completion token was never received (any wake-up of the poll, '
+                      'e.g. the Writer dropping the completion sender unanswered, then counts as "all acknowledged")' % term_str(v)[:80], wf.where(bb, si))
     rep.floor('R20.4', n_true, 2, 'Ok(true) results of wait_for_acknowledgments')
 
     # ------------------------------------------------------------ R20.5
